@@ -250,6 +250,12 @@ func rtOracle(r *rtRun, prop string) []string {
 		serialOf[in.ptr] = in.serial
 		cfgOfSerial[in.serial] = in.ptr
 	}
+	if (prop == "C08" || prop == "C07" || prop == "C05" || prop == "C06") && r.monBlockedAt != "" {
+		bad("the monitor goroutine was blocked outside its top-level select, after hook point %s: updates, Done, EnableVerification and blocking reports all wait for it", r.monBlockedAt)
+	}
+	if prop == "C08" && r.monAfterAllDone != "" {
+		bad("every watching source's Done was accepted, yet the monitor went back to waiting instead of exiting (the Config context is alive): %s", r.monAfterAllDone)
+	}
 	if prop == "C04" || prop == "C05" {
 		// every version ever rendered (views, callbacks, events, verify) is re-rendered at the end as well:
 		// an installed version must not change after the fact
